@@ -147,6 +147,18 @@ def menagerie(ps, rnd):
             objs += [(grp + 'up', sx, False), (grp + 'up-again', signatures.signature(fx), False)]
             if sx.parameters and lab == 'nan':
                 objs += [(grp + 'param', list(sx.parameters.values())[0], False)]
+    # values that REFUSE comparison (no truth value, raising ==), are not equal to themselves, or are built anew by every evaluation of a
+    # postponed annotation: two retrievals of the same function still compare equal, at signature and at parameter level, with a bool
+    for mode in ('notruth', 'raises', 'never', 'anyeq'):
+        g = {'A1': absig.Unusual(mode, an=1), 'D2': absig.Unusual(mode, dv=2), 'A2': absig.Unusual(mode, an=2)}
+        fx = absig.make_func([dict(p, an=(1 if p['k'] not in ('var', 'vkw') else 0), dv=(2 if p['d'] else 0)) for p in ps], name='f', extra_globals=g, ret='A2')
+        s1, s2 = signatures.signature(fx), signatures.signature(fx)
+        grp = 'solo:unusual-%s:' % mode
+        objs += [(grp + 'up', s1, False), (grp + 'up-again', s2, False)]
+        if s1.parameters:
+            objs += [(grp + 'param', list(s1.parameters.values())[0], False), (grp + 'param-again', list(s2.parameters.values())[0], False)]
+    fm = absig.make_func([dict(p, an=(97 if p['k'] not in ('var', 'vkw') else 0)) for p in ps], name='f', future=True, extra_globals={'Marker': type('Marker', (), {})})
+    objs += [('solo:fresh-object:up', signatures.signature(fm), False), ('solo:fresh-object:up-again', signatures.signature(fm), False)]
     params = list(up.parameters.values())
     if params:
         p0 = params[0]
@@ -181,6 +193,7 @@ def events_for(tid, ps, rnd):
         if (la.startswith('solo:') or lb.startswith('solo:')) and la.split(':')[:2] != lb.split(':')[:2]:
             continue
         yield {'tid': '%s/cmp-%s-%s' % (tid, la, lb), 'op': 'cmp', 'x': absd[ia], 'y': absd[ib], 'same_object': a is b,
+               'twins': la.startswith('solo:') and la.replace('-again', '') == lb.replace('-again', ''),
                'eq_xy': tri(lambda: a == b), 'eq_yx': tri(lambda: b == a), 'ne_xy': tri(lambda: a != b), 'ne_yx': tri(lambda: b != a),
                'hx': hsh(a, hids), 'hy': hsh(b, hids), 'hx_plain_ok': hsh(plain_twin(a), Ids())['ok'],
                'case': {'ps': ps, 'x': la, 'y': lb}}
